@@ -66,15 +66,19 @@ Lemma wf_binary_r op l r : wf (EBinary op l r) ->
   wf l /\ ((exists s, r = EStrRegex s /\ is_match op = true) \/ wf r).
 Proof. cbn [wf]. intros (Hl & [H | (Hr & _)]); auto. Qed.
 
-(* every token whose continuation ranks are at most thr req may follow an operand printed for req *)
+(* a token may follow an operand printed for req when its continuation rank IN THE TOWER THE OPERAND
+   IS READ IN is at most thr req, and its rank in the plain tower is at most max (thr req) 11:
+   the plain tower is re-entered only below a unary operator, $ or ++/--, whose operands are read at
+   the ^ level or above (so, inside print, > and | may follow any argument) *)
 Definition OkPar (e : expr) : Prop :=
-  wf e -> forall fl pc pe req ct cf,
-  ct <= thr req -> cf <= thr req -> okn pc (par fl pe req e) ct cf = true.
+  wf e -> forall (fl pc pe : bool) (req ct cf : nat),
+  (if pc then ct else cf) <= thr req -> cf <= Nat.max (thr req) 11 ->
+  okn pc (par fl pe req e) ct cf = true.
 
 Lemma okn_par_strong : forall e, OkPar e /\ match e with EField i => OkPar i | _ => True end.
 Proof.
   induction e using expr_ind'; (split; [|try exact I; try (apply IHe)]);
-    intros Hwf fl pc pe req ct cf Hct Hcf;
+    intros Hwf fl pc pe req ct cf Hcp Hcf;
     (match goal with |- okn _ (par _ _ _ ?e0) _ _ = true =>
        destruct (fl || (tlevel e0 <? req) || (pe && is_gt e0)) eqn:Hg end;
      [apply okn_par_group; exact Hg|]);
@@ -86,7 +90,7 @@ Proof.
     rewrite pnode_field. cbn [okn]. cbn [thr] in Hm.
     rewrite (proj2 (leb_le _ _)) by lia. apply IHe; [exact Hwf | cbn; lia | cbn; lia].
   - (* variable *)
-    cbn [pnode okn]. apply leb_le. pose proof (thr_le13 req). destruct pc; lia.
+    cbn [pnode okn]. apply leb_le. pose proof (thr_le13 req). exact (Nat.le_trans _ _ _ Hcp H).
   - (* in *)
     destruct idx as [|x [|y r]]; reflexivity.
   - (* unary *)
@@ -103,23 +107,23 @@ Proof.
       assert (Hp : okn pc (par fl pe (rreq op) e2) ct cf = true) by (apply IHe2; [exact Hwr | lia | lia]).
       destruct e2; try exact Hp. cbn [wf] in Hwr. contradiction. }
     cbn [okn]. rewrite Hr.
-    destruct op; cbn [table fst thr] in Hm; rewrite andb_true_r; apply leb_le; destruct pc; lia.
+    destruct op; cbn [table fst thr] in Hm; rewrite andb_true_r; apply leb_le; lia.
   - (* ?: *)
     rewrite pnode_cond. cbn [okn]. cbn [thr] in Hm. destruct Hwf as (_ & _ & Hwf3).
     rewrite (proj2 (leb_le _ _)) by lia. apply IHe3; [exact Hwf3 | cbn; lia | cbn; lia].
   - (* = *)
     rewrite pnode_assign. cbn [okn]. cbn [thr] in Hm. destruct Hwf as (_ & _ & Hwr).
-    rewrite (proj2 (leb_le _ _)) by (destruct pc; lia). apply IHe2; [exact Hwr | cbn; lia | cbn; lia].
+    rewrite (proj2 (leb_le _ _)) by lia. apply IHe2; [exact Hwr | cbn; lia | cbn; lia].
   - (* op= *)
     rewrite pnode_augassign. cbn [okn]. cbn [thr] in Hm. destruct Hwf as (_ & _ & _ & Hwr).
-    rewrite (proj2 (leb_le _ _)) by (destruct pc; lia). apply IHe2; [exact Hwr | cbn; lia | cbn; lia].
+    rewrite (proj2 (leb_le _ _)) by lia. apply IHe2; [exact Hwr | cbn; lia | cbn; lia].
   - (* ++ -- *)
     rewrite pnode_incr. destruct pre; [|reflexivity]. cbn [okn]. cbn [thr] in Hm.
     destruct Hwf as (Hlval & Hwx & _). destruct IHe as [_ IHi].
     destruct e; try discriminate.
     + (* ++$i *) rewrite pnode_field. cbn [okn].
       rewrite (proj2 (leb_le _ _)) by lia. apply IHi; [exact Hwx | cbn; lia | cbn; lia].
-    + cbn [pnode okn]. apply leb_le. destruct pc; lia.
+    + cbn [pnode okn]. apply leb_le. pose proof (thr_le13 req). lia.
     + reflexivity.
 Qed.
 
@@ -176,11 +180,17 @@ Proof.
   apply (fits_par x H1 Hwx fl false false 0). discriminate.
 Qed.
 
+Lemma ok_par_pc pc fl pe req e t : wf e ->
+  tok_cont pc t <= thr req -> tok_cont false t <= Nat.max (thr req) 11 -> ok pc (par fl pe req e) t = true.
+Proof.
+  intros Hwf Hp Hc. unfold ok. apply okn_par; [exact Hwf | destruct pc; exact Hp | exact Hc].
+Qed.
+
 Lemma ok_par pc fl pe req e t : wf e ->
   tok_cont false t <= thr req -> ok pc (par fl pe req e) t = true.
 Proof.
-  intros Hwf Hc. unfold ok. apply okn_par; [exact Hwf | | exact Hc].
-  pose proof (tok_cont_true_le t). lia.
+  intros Hwf Hc. apply ok_par_pc; [exact Hwf | | lia].
+  pose proof (tok_cont_true_le t). destruct pc; lia.
 Qed.
 
 (* an lvalue may be followed by any token of continuation rank <= 12 *)
@@ -273,8 +283,8 @@ Proof.
     rewrite pnode_cond. destruct Hwf as (Hwc & Hwt & Hwf'). cbn [fits nat_rk]. repeat split; [lia | | | |].
     + apply (fits_par e1 IHe1 Hwc fl pc pe 3 Hp).
     + apply ok_par; [exact Hwc | cbn; lia].
-    + eapply fits_mono; [apply (fits_par e2 IHe2 Hwt fl false pe 2); discriminate | cbn; lia].
-    + eapply fits_mono; [apply (fits_par e3 IHe3 Hwf' fl false pe 2); discriminate | cbn; lia].
+    + eapply fits_mono; [apply (fits_par e2 IHe2 Hwt fl pc pe 2 Hp) | cbn; lia].
+    + eapply fits_mono; [apply (fits_par e3 IHe3 Hwf' fl pc pe 2 Hp) | cbn; lia].
   - (* = *)
     rewrite pnode_assign. destruct Hwf as (Hlv & Hwl & Hwr). cbn [fits nat_rk]. repeat split.
     + apply is_lvalue_pnode; exact Hlv.
